@@ -2,6 +2,7 @@
 CONSTANTS Chans = {3} Rows = {0, 1, 2, 3, 4, 5, 6, 7, 8, 9, 10, 11, 12, 13, 14} Chars = {65} MaxPairs = 6
   Indents = {0} Depths = {2, 3, 4} Tabs = {1}
   Kinds = {"RU", "CR", "PAC", "EDM", "TEXT"}
+  Beyond = {}
   Mix <- NoMix Bursts <- NoBurst
 SPECIFICATION GSpec
 VIEW gview2
